@@ -319,7 +319,12 @@ type SimRun struct {
 	Stdout, Stderr []byte
 	Res            SimResult
 	ExitErr        string
+	ExitCode       int
 }
+
+// Ended reports whether the run ended the way a process ends: main returned
+// or the tool called os.Exit.
+func (r *SimRun) Ended() bool { return r.Res.End == "main-exit" || r.Res.End == "os-exit" }
 
 // RunSim executes the instrumented CLI once (one process per run).
 // LightDiv: library yields park once in LightDiv (0: never; reference runs).
@@ -331,7 +336,7 @@ func RunSim(work, dir string, argv []string, stdin []byte, words []uint32, strat
 		return nil, fmt.Errorf("VERIF_CLI_BIN not set")
 	}
 	sc := map[string]any{"args": argv, "stdout": filepath.Join(work, "stdout"), "stderr": filepath.Join(work, "stderr"), "result": filepath.Join(work, "result.json"),
-		"words": words, "strategy": strategy, "depth": depth, "est_steps": 400, "max_steps": 3000000, "dir": dir, "light_div": lightDivFor(words)}
+		"words": words, "strategy": strategy, "depth": depth, "est_steps": 400, "max_steps": 25000000, "dir": dir, "light_div": lightDivFor(words)}
 	if stdin != nil {
 		p := filepath.Join(work, "stdin")
 		if err := os.WriteFile(p, stdin, 0o644); err != nil {
@@ -353,7 +358,22 @@ func RunSim(work, dir string, argv []string, stdin []byte, words []uint32, strat
 	run.Stderr, _ = os.ReadFile(filepath.Join(work, "stderr"))
 	rb, rerr := os.ReadFile(filepath.Join(work, "result.json"))
 	if rerr != nil {
-		run.ExitErr = fmt.Sprintf("no result (%v): %s", err, tailStr(string(out), 12000))
+		// No scheduler result: the process ended inside main(). A crash names
+		// itself on the real stderr; otherwise the tool called os.Exit (exit
+		// status is not fixed by any property): stdout/stderr files are complete
+		// up to that point, like a real process.
+		text := string(out)
+		crashed := strings.Contains(text, "panic:") || strings.Contains(text, "fatal error:") || strings.Contains(text, "test timed out") || strings.Contains(text, "signal:") || strings.Contains(text, "goroutine ")
+		if ee, ok := err.(*exec.ExitError); ok && !crashed && ee.ExitCode() >= 0 {
+			run.Res.End = "os-exit"
+			run.ExitCode = ee.ExitCode()
+			return run, nil
+		}
+		if err == nil && !crashed {
+			run.Res.End = "os-exit" // os.Exit(0)
+			return run, nil
+		}
+		run.ExitErr = fmt.Sprintf("no result (%v): %s", err, tailStr(text, 12000))
 		return run, nil
 	}
 	if jerr := json.Unmarshal(rb, &run.Res); jerr != nil {
